@@ -13,14 +13,15 @@ EXTENDS IFT, TraceIO
 VARIABLES chainv, gen, font, d, applied
 
 SeqAsSet(q) == {q[i] : i \in DOMAIN q}
+SegOf(x) == IF Len(x) = 3 THEN <<x[1], x[2], x[3]>> ELSE <<x[1], x[2]>>
 JEntry(e) == [cps |-> SeqAsSet(e.cps), feats |-> SeqAsSet(e.feats),
-              ds |-> {<<e.ds[i][1], e.ds[i][2]>> : i \in DOMAIN e.ds},
+              ds |-> {SegOf(e.ds[i]) : i \in DOMAIN e.ds},
               kids |-> SeqAsSet(e.kids), conj |-> e.conj, ign |-> e.ign, fmt |-> e.fmt, id |-> e.id]
 JTable(t) == IF "none" \in DOMAIN t THEN NoTable
              ELSE [compat |-> t.compat, tmpl |-> t.tmpl, entries |-> [i \in DOMAIN t.entries |-> JEntry(t.entries[i])]]
 JFont(f) == [ift |-> JTable(f.ift), iftx |-> JTable(f.iftx)]
 JDef(x) == [cps |-> SeqAsSet(x.cps), feats |-> SeqAsSet(x.feats),
-            ds |-> {<<x.ds[i][1], x.ds[i][2]>> : i \in DOMAIN x.ds}, fall |-> x.fall, dall |-> x.dall]
+            ds |-> {SegOf(x.ds[i]) : i \in DOMAIN x.ds}, fall |-> x.fall, dall |-> x.dall]
 JUris(q) == {<<q[i][1], q[i][2]>> : i \in DOMAIN q}
 NoFont == [ift |-> NoTable, iftx |-> NoTable]
 WithIgn(t, bits) == IF ~IsTable(t) THEN t
